@@ -191,6 +191,9 @@ func init() {
 	checks["C07"] = func(p *Program, r *Report) {
 		checkFsSubset(p, r, []string{"COMPACT-PUBLISHES", "LIST-CONTENT", "ORDER-DELETE-LAST", "CONFIG-SAME", "LIST-VALID", "UPTODATE-MEANS-EQUAL"}, map[string]int{"COMPACT-PUBLISHES": 2, "LIST-CONTENT": 4, "CONFIG-SAME": 2, "LIST-VALID": 5})
 		checkCompactionTables(p, r, false, true)
+		// what a reader sees after the compaction goes through the stack's view again:
+		// that view (also of a single table) hides the tombstones the compaction kept
+		copyRules(p, r, checkMergedView, "SEEK-MERGED", "DT-SUPPRESS")
 		r.Engines = []string{"pathsim", "dtable", "fsproto"}
 		r.Explanation = "Decision table of the compaction rewrite loop extracted by path-sensitive simulation: a ref (or log) record obtained from the raw merged view of exactly stack[first..last] is either handed unmodified to AddRef/AddLog or dropped, and DROP implies (first = 0 and IsDeletion) [or expiry, see C13]; output limits are (min of first, max of last); the compaction's merged view never suppresses deletions; the committed list keeps exactly the tables outside [first,last] plus the new table; a finished merge is published. These are necessary conditions of view preservation, not the equality of views itself."
 		r.NotDecided = []string{"equality of the reader's view before/after for given data (needs the arithmetic of C01-C03)", "log deletions surviving the writer's message normalisation (decided under C01 deletion preservation)"}
